@@ -621,6 +621,23 @@ pub fn mk_connect_opts(rng: &mut Rng, ver: u64, clean: Option<bool>, sei: Option
     }
 }
 
+/// successful v5.0 CONNACK (session present) announcing exactly this Maximum Packet Size
+pub fn mk_connack_mps(rng: &mut Rng, sp: bool, mps: u32) -> Packet {
+    let mut props = props_connect(rng);
+    props.retain(|p| !matches!(p, Property::SessionExpiryInterval(_) | Property::MaximumPacketSize(_)));
+    props.push(mqtt::packet::MaximumPacketSize::new(mps.max(1)).unwrap().into());
+    v5_0::Connack::builder().session_present(sp).reason_code(ConnectReasonCode::Success).props(props).build().unwrap().into()
+}
+
+/// v5.0 CONNECT (resuming) announcing exactly this Maximum Packet Size
+pub fn mk_connect_mps(rng: &mut Rng, mps: u32) -> Packet {
+    let mut props = props_connect(rng);
+    props.retain(|p| !matches!(p, Property::SessionExpiryInterval(_) | Property::MaximumPacketSize(_)));
+    props.push(mqtt::packet::MaximumPacketSize::new(mps.max(1)).unwrap().into());
+    props.push(mqtt::packet::SessionExpiryInterval::new(100).unwrap().into());
+    v5_0::Connect::builder().client_id("cid").unwrap().clean_start(false).keep_alive(0).props(props).build().unwrap().into()
+}
+
 /// successful CONNACK with a forced session-present flag
 pub fn mk_connack_sp(rng: &mut Rng, ver: u64, sp: bool) -> Packet {
     if ver == 4 {
@@ -672,7 +689,7 @@ pub fn mk_publish(rng: &mut Rng, ver: u64, qos: u8, pid: u64, dup: bool) -> Opti
         let mode = rng.below(10);
         // 0-4: topic only; 5-6: topic + alias; 7-8: alias only (empty topic); 9: alias out of the usual range
         let alias: Option<u16> = match mode {
-            5..=8 => Some(rng.range(1, 3) as u16),
+            5..=8 => Some(rng.range(1, 2) as u16),
             9 => Some(*rng.pick(&[4u16, 7, 65535])),
             _ => None,
         };
@@ -716,7 +733,7 @@ pub fn mk_ack(rng: &mut Rng, ver: u64, ty: u64, pid: u64) -> Option<Packet> {
                 if fail {
                     b.reason_code(PubackReasonCode::UnspecifiedError).build().ok()?.into()
                 } else if explicit {
-                    b.reason_code(PubackReasonCode::Success).build().ok()?.into()
+                    b.reason_code(if rng.chance(1, 2) { PubackReasonCode::Success } else { PubackReasonCode::NoMatchingSubscribers }).build().ok()?.into()
                 } else {
                     b.build().ok()?.into()
                 }
@@ -726,7 +743,8 @@ pub fn mk_ack(rng: &mut Rng, ver: u64, ty: u64, pid: u64) -> Option<Packet> {
                 if fail {
                     b.reason_code(PubrecReasonCode::UnspecifiedError).build().ok()?.into()
                 } else if explicit {
-                    b.reason_code(PubrecReasonCode::Success).build().ok()?.into()
+                    // both success-class codes
+                    b.reason_code(if rng.chance(1, 2) { PubrecReasonCode::Success } else { PubrecReasonCode::NoMatchingSubscribers }).build().ok()?.into()
                 } else {
                     b.build().ok()?.into()
                 }
